@@ -165,7 +165,7 @@ func (lc *lockCache) info(fn *ssa.Function) *lockInfo {
 func init() {
 	register(&Property{
 		ID:          "C20",
-		Explanation: "Decides structural necessary conditions of concurrency safety of contexts, plugins and the stdio service (not absence of all races or liveness): R1 guarded-by: every read/write of the listed shared fields (build-context state, service state, watcher and serve-handler state, caches) happens with the owning mutex in the must-hold lock set (intraprocedural dataflow with defer handling and one level of call-site binding), or is a reviewed entry; R2 every Lock is released on all exits (or deferred), and no blocking operation (WaitGroup.Wait, plugin/rebuild call, channel op) runs while a context/service mutex is held; R3 Rebuild/Cancel/Dispose join semantics (Add and activeBuild publication in one critical section, activeBuild cleared under the lock before Done, Cancel/Dispose wait for the snapshotted build, didDispose tested under the lock by every public method); R4 each stdio request gets exactly one response carrying its own id on every path, and every goroutine of the handler is accounted in the keep-alive wait group; R5 on-start callbacks complete before anything that can reach resolve/load callbacks, and on-end callbacks run after the output-writing wait and on every path. R3 also decides that no return of Cancel/Dispose is reachable without Wait or the activeBuild-is-nil edge. R6 goroutine-private-slots (E-SLOT). R7 lock-order: the module-wide lock-order graph (mutex B acquired directly or through static callees while mutex A is in the must-hold set) has no cycle; no mutex is locked, directly or by a callee on the same object, while already held. R8 spawn-then-write. R9 mangle-cache-per-build: the mangle cache given to Compile is a cloneMangleCache result of the same function. R10 skipped-write-is-verified: every path of the per-file output writer to a return passes the writing-disabled gate, WriteFile, an error report or the read-back of the file. NOT covered: data races on fields outside the table, liveness under arbitrary plugin behaviour, the TypeScript side of the protocol.",
+		Explanation: "Decides structural necessary conditions of concurrency safety of contexts, plugins and the stdio service (not absence of all races or liveness): R1 guarded-by: every read/write of the listed shared fields (build-context state, service state, watcher and serve-handler state, caches) happens with the owning mutex in the must-hold lock set (intraprocedural dataflow with defer handling and one level of call-site binding), or is a reviewed entry; R2 every Lock is released on all exits (or deferred), and no blocking operation (WaitGroup.Wait, plugin/rebuild call, channel op) runs while a context/service mutex is held; R3 Rebuild/Cancel/Dispose join semantics (Add and activeBuild publication in one critical section, activeBuild cleared under the lock before Done, Cancel/Dispose wait for the snapshotted build, didDispose tested under the lock by every public method); R4 each stdio request gets exactly one response carrying its own id on every path, and every goroutine of the handler is accounted in the keep-alive wait group; R5 on-start callbacks complete before anything that can reach resolve/load callbacks, and on-end callbacks run after the output-writing wait and on every path. R3 also decides that no return of Cancel/Dispose is reachable without Wait or the activeBuild-is-nil edge. R6 goroutine-private-slots (E-SLOT). R7 lock-order: the module-wide lock-order graph (mutex B acquired directly or through static callees while mutex A is in the must-hold set) has no cycle; no mutex is locked, directly or by a callee on the same object, while already held. R8 spawn-then-write. R9 mangle-cache-per-build: the mangle cache given to Compile is a cloneMangleCache result of the same function. R10 skipped-write-is-verified: every path of the per-file output writer to a return passes the writing-disabled gate, WriteFile, an error report or the read-back of the file. R11 inject-before-results: the C16/R12 analysis. NOT covered: data races on fields outside the table, liveness under arbitrary plugin behaviour, the TypeScript side of the protocol.",
 		Run: func(p *Prog, tier string) []*RuleResult {
 			return []*RuleResult{c20GuardedBy(p), c20LockBalance(p), c20JoinSemantics(p), c20OneResponse(p), c20CallbackOrdering(p), goroutinePrivateSlots(p, "C20/R6 goroutine-private-slots"), c20LockOrder(p), spawnThenWrite(p, "C20/R8 spawn-then-write"), c20MangleCachePerBuild(p), skippedWriteVerified(p, "C20/R10 skipped-write-is-verified"), injectBeforeResults(p, "C20/R11 inject-before-results")}
 		},
